@@ -270,6 +270,7 @@ type Solver struct {
 	DumpDir   string
 	nq        int
 	Errors    []string
+	Restarts  int // solver processes that died early and were restarted
 }
 
 type Stat struct {
@@ -337,6 +338,20 @@ type lineRes struct {
 
 // run sends script + check-sat (+ get-value) to one solver.
 func (s *Solver) run(name, script string, vars []*term.Term, wantModel bool) (Result, map[string]*big.Int, string) {
+	// A solver process that dies before its deadline (killed from outside, e.g. another user's
+	// `pkill -x z3`) is restarted and the query retried; only a repeated failure is reported.
+	for attempt := 0; ; attempt++ {
+		t0 := time.Now()
+		res, model, e := s.run1(name, script, vars, wantModel)
+		died := strings.HasPrefix(e, "write: ") || (e == "timeout/EOF" && time.Since(t0) < time.Duration(s.TimeoutMs)*time.Millisecond)
+		if !died || attempt >= 2 {
+			return res, model, e
+		}
+		s.Restarts++
+	}
+}
+
+func (s *Solver) run1(name, script string, vars []*term.Term, wantModel bool) (Result, map[string]*big.Int, string) {
 	p, err := s.proc(name)
 	if err != nil {
 		return Unknown, nil, "spawn: " + err.Error()
